@@ -232,7 +232,7 @@ def build_tasks(depth, reduced=False, full_below=600, budget=2):
 def run(ctx):
     res = Result()
     depth = int(os.environ.get("VERIF_C03_DEPTH", 1 if ctx.quick() else 2))
-    tasks = build_tasks(depth, reduced=ctx.quick(), full_below=600 if ctx.quick() else 8000, budget=2 if ctx.quick() else 3)
+    tasks = build_tasks(depth, reduced=ctx.quick(), full_below=600 if ctx.quick() else 3000, budget=2)
     if os.environ.get("VERIF_C03_ONLY"):
         tasks = [t for t in tasks if os.environ["VERIF_C03_ONLY"] in t[0]]
     ctx.log(f"{len(tasks)} statement skeleton instances after the preamble `{' '.join(t for _, t in PREAMBLE)}`")
